@@ -165,6 +165,9 @@ func c0xAssign(name, lit string, p *lang.Process) (val string, kind int, errText
 
 var c0xFuncOnce sync.Once
 
+// c0xTimedOut: the last end-to-end run did not finish in time (overloaded machine)
+var c0xTimedOut bool
+
 // c0xParams runs `<prelude>; verifpf <args>` in the interpreter and returns $PARAMS.
 func c0xParams(prelude, args string) (params []string, ok bool) {
 	c0xFuncOnce.Do(func() {
@@ -177,8 +180,12 @@ func c0xParams(prelude, args string) (params []string, ok bool) {
 	if prelude != "" {
 		block = prelude + "\n" + block
 	}
-	r := RunMurex(block, 20*time.Second)
-	if r.Timeout || r.Err || r.ExitNum != 0 {
+	r := RunMurex(block, 60*time.Second)
+	if r.Timeout {
+		c0xTimedOut = true
+		return nil, false
+	}
+	if r.Err || r.ExitNum != 0 {
 		return nil, false
 	}
 	if err := json.Unmarshal([]byte(r.Stdout), &params); err != nil {
